@@ -2,7 +2,7 @@
 Determinism — model of the places where pydoctor's output could depend on something other than
 its inputs (C18).  Import-free, executable, total.
 
-Four parts (the fourth, the build-time decision, is at the end of the file), each a literal
+Five parts (the build-time decision and the presentation sort keys are at the end of the file), each a literal
 transcription of the code named beside it:
 
 1. *Set-iteration sites.*  Python iterates a `set` in an order fixed by the hash seed of the
@@ -364,6 +364,164 @@ def buildTime (now : Int) (env : EnvEpoch) (opt : OptTime) : BuildTime :=
     | .notGiven => .time n
     | .bad => .exitError
     | .time t => .time t
+
+/-! ## 5. presentation order: the sort keys of the writers
+
+Every list the writers show is `sorted(<list>, key=<key>)` (Python's sort is stable: elements whose
+keys are equal stay in the order of the input list).  The keys are transcribed here; a key is a
+tuple of ints and strs, compared as Python compares tuples (lexicographically). -/
+
+/-- an order on keys: `le` with the three laws are in `PdProps.C18` (`*_total/_trans/_antisymm`) -/
+def intLe (a b : Int) : Bool := decide (a ≤ b)
+
+/-- lexicographic order of pairs, from the orders of the components: `(a, b) <= (a', b')` -/
+def pairLe {α β : Type} (leA : α → α → Bool) (leB : β → β → Bool) (x y : α × β) : Bool :=
+  if leA x.1 y.1 && !(leA y.1 x.1) then true          -- x.1 < y.1
+  else if leA x.1 y.1 && leA y.1 x.1 then leB x.2 y.2  -- x.1 == y.1
+  else false
+
+/-- `sorted(xs, key=key)` with keys ordered by `le` (stable) -/
+def sortedWith {α κ : Type} (le : κ → κ → Bool) (key : α → κ) (xs : List α) : List α :=
+  xs.mergeSort (fun a b => le (key a) (key b))
+
+/-- what the keys read off a `Documentable` -/
+structure Obj where
+  privacy : Nat          -- o.privacyClass.value   (HIDDEN 0, PRIVATE 1, PUBLIC 2)
+  kind : Option Nat      -- o.kind.value, `none` when o.kind is None
+  full : Name            -- o.fullName()
+  lowerFull : Name       -- o.fullName().lower()   (str.lower is CPython's: a parameter)
+  line : Nat             -- o.linenumber
+  isModule : Bool        -- isinstance(o, model.Module)
+  deriving DecidableEq, Repr
+
+/-- util._map_kind: packages and modules are listed together (PACKAGE = 1000, MODULE = 900) -/
+def mapKind (k : Nat) : Nat := if k = 1000 then 900 else k
+
+/-- `-_map_kind(o.kind).value if o.kind else 0` (an Enum member is always truthy: `else` = None) -/
+def negKind (o : Obj) : Int :=
+  match o.kind with
+  | some k => - (Int.ofNat (mapKind k))
+  | none => 0
+
+abbrev AlphaKey := Int × Int × Name
+
+/-- util.alphabetical_order_func:
+`(-o.privacyClass.value, -_map_kind(o.kind).value if o.kind else 0, o.fullName().lower())` -/
+def alphaKey (o : Obj) : AlphaKey := (- Int.ofNat o.privacy, negKind o, o.lowerFull)
+
+def alphaLe : AlphaKey → AlphaKey → Bool := pairLe intLe (pairLe intLe lexLe)
+
+/-- third component of util.source_order_func: a str for modules, an int otherwise -/
+inductive Third where
+  | num (n : Nat)
+  | str (s : Name)
+  deriving DecidableEq, Repr
+
+/-- order on `Third`.  Python raises TypeError for `int < str`; that case is excluded by
+`sourceComparable` (it is never reached for real objects: a module and a non-module differ in their
+kind component), and is given an arbitrary answer here (ints first) only to keep `le` total. -/
+def thirdLe : Third → Third → Bool
+  | .num a, .num b => decide (a ≤ b)
+  | .str a, .str b => lexLe a b
+  | .num _, .str _ => true
+  | .str _, .num _ => false
+
+abbrev SourceKey := Int × Int × Third
+
+/-- util.source_order_func:
+```
+if isinstance(o, model.Module): return (-privacy, -kind, o.fullName().lower())
+else:                           return (-privacy, -kind, o.linenumber)
+``` -/
+def sourceKey (o : Obj) : SourceKey :=
+  (- Int.ofNat o.privacy, negKind o, if o.isModule then .str o.lowerFull else .num o.line)
+
+def sourceLe : SourceKey → SourceKey → Bool := pairLe intLe (pairLe intLe thirdLe)
+
+/-- two source keys that Python can compare without TypeError: they differ before the third
+component, or their third components have the same type -/
+def sourceComparable (a b : Obj) : Bool :=
+  (sourceKey a).1 != (sourceKey b).1 || (sourceKey a).2.1 != (sourceKey b).2.1 || a.isModule == b.isModule
+
+/-- `sorted(objs, key=source_order_func)`; `none` = some pair of keys would raise TypeError if the
+sort happened to compare it -/
+def sortedSource? (objs : List Obj) : Option (List Obj) :=
+  if objs.all (fun a => objs.all (fun b => sourceComparable a b)) then some (sortedWith sourceLe sourceKey objs)
+  else none
+
+/-- summary._lckey: `(x.fullName().lower(), x.fullName())` -/
+def lcKey (o : Obj) : Name × Name := (o.lowerFull, o.full)
+
+def lcLe : Name × Name → Name × Name → Bool := pairLe lexLe lexLe
+
+/-- a str with its `.lower()` (CPython's) -/
+structure Str where
+  s : Name
+  lower : Name
+  deriving DecidableEq, Repr
+
+/-- LetterElement.names: `sorted(name2obs, key=lambda x: (x.lower(), x))` -/
+def nameKey (x : Str) : Name × Name := (x.lower, x.s)
+
+/-- summary.findRootClasses: `sorted(roots.items(), key=lambda x: x[0].lower())`, and
+`sorted(self.ob.implements_directly, key=lambda x: x.lower())` -/
+def lowerKey (x : Str) : Name := x.lower
+
+/-- UndocumentedSummaryPage.stuff: `undoccedpublic.sort(key=lambda o: o.fullName())` -/
+def fullKey (o : Obj) : Name := o.full
+
+def sortedAlpha (objs : List Obj) : List Obj := sortedWith alphaLe alphaKey objs
+def sortedLc (objs : List Obj) : List Obj := sortedWith lcLe lcKey objs
+def sortedFull (objs : List Obj) : List Obj := sortedWith lexLe fullKey objs
+def sortedNames (xs : List Str) : List Str := sortedWith lcLe nameKey xs
+def sortedLower (xs : List Str) : List Str := sortedWith lexLe lowerKey xs
+
+/-! ### inherited members (templatewriter.util) -/
+
+structure Member where
+  name : Name
+  visible : Bool
+  id : Nat               -- which object (position in the request)
+  deriving DecidableEq, Repr
+
+inductive AttrsRes where
+  | ok (members : List Member)
+  | indexError             -- `baselist[0]` of an empty chain
+  deriving DecidableEq, Repr
+
+/-- util.unmasked_attrs:
+```
+maybe_masking = {o.name for b in baselist[1:] for o in b.contents.values()}
+return [o for o in baselist[0].contents.values() if o.isVisible and o.name not in maybe_masking]
+```
+`masking` is ANY enumeration of the set `maybe_masking` (it is only asked `in`). -/
+def unmaskedAttrsWith (first : List Member) (masking : List Name) : List Member :=
+  first.filter (fun o => o.visible && !(masking.contains o.name))
+
+def maskingNames (rest : List (List Member)) : List Name := (rest.map (·.map (·.name))).flatten
+
+def unmaskedAttrs (baselist : List (List Member)) : AttrsRes :=
+  match baselist with
+  | [] => .indexError
+  | first :: rest => .ok (unmaskedAttrsWith first (maskingNames rest))
+
+/-- util.nested_bases: `for i, _ in enumerate(_mro): yield tuple(reversed(_mro[:(i+1)]))` -/
+def nestedBases {α : Type} (mro : List α) : List (List α) :=
+  (List.range mro.length).map (fun i => (mro.take (i + 1)).reverse)
+
+/-- util.class_members followed by util.inherited_members:
+```
+for baselist in nested_bases(cls): attrs = unmasked_attrs(baselist); if attrs: baselists.append((baselist, attrs))
+for inherited_via, attrs in class_members(cls): if len(inherited_via) > 1: children.extend(attrs)
+```
+`mro` = the contents (in dict order) of the classes of `cls.mro()`. -/
+def inheritedMembers (mro : List (List Member)) : List Member :=
+  ((nestedBases mro).filterMap (fun chain =>
+    if chain.length > 1 then
+      match unmaskedAttrs chain with
+      | .ok attrs => some attrs
+      | .indexError => none
+    else none)).flatten
 
 /-- the executable property predicate for part 1: a site function gives the same answer on two
 enumerations -/
